@@ -161,7 +161,7 @@ def _c20_cover_behaviours(ctx, name, base_id):
 def check_C20(ctx):
     _java_opts()
     binary = ctx.build("vals")
-    nsim = 96 if ctx.quick else 2400
+    nsim = 96 if ctx.quick else 1200
     chunks = 4 if ctx.quick else 12
     per = (nsim + chunks - 1) // chunks
 
@@ -241,6 +241,7 @@ def check_C20(ctx):
         "distinct_nontrivial": len(triples),
         "rule": "distinct (abstract state, call with arguments) pairs of the four bounded configurations plus distinct labelled calls (operation, arguments, predicted result) of the simulated histories; each executed on the real runtime",
         "exhaustive": True,
+        "exhaustive_scope": "the four bounded configurations are enumerated completely and every one of their transitions is replayed; the simulated deep histories are samples",
         "cover_behaviours": len(cover_behs), "simulated_histories": len(sim_behs),
         "largest_container_in_simulation": maxlen,
         "operations_in_simulation": ops,
@@ -272,7 +273,7 @@ def _c05_cover_behaviours(ctx, name, base_id):
 def check_C05(ctx):
     _java_opts()
     binary = ctx.build("vals")
-    nsim = 64 if ctx.quick else 1600
+    nsim = 64 if ctx.quick else 800
     chunks = 4 if ctx.quick else 16
     per = (nsim + chunks - 1) // chunks
 
@@ -338,6 +339,7 @@ def check_C05(ctx):
         "distinct_nontrivial": len(triples),
         "rule": "distinct (abstract state, step) pairs of the two bounded configurations plus distinct (step, predicted deep observation) pairs of the simulated histories; after each of them every variable, both references and every storage path are compared deeply",
         "exhaustive": True,
+        "exhaustive_scope": "the two bounded configurations are enumerated completely and every one of their transitions is replayed; the simulated histories are samples",
         "cover_behaviours": len(cover_behs), "simulated_histories": len(sim_behs),
         "mutations_through_references_in_simulation": via_ref,
         "operations_in_simulation": ops,
@@ -350,13 +352,13 @@ def check_C05(ctx):
 C51_STRUCTS = {
     # kind: (module, cover cfg quick, cover cfg thorough, sim cfg, sim depth, variants)
     "omap": ("MC_OrderedMap", "Cover_OrderedMap.cfg", "Cover_OrderedMap4.cfg", "Sim_OrderedMap.cfg", 3000, ["zero", "new"]),
-    "pset": ("PersistentSet", "Cover_PersistentSet.cfg", "Cover_PersistentSet.cfg", "Sim_PersistentSet.cfg", 1500, [""]),
+    "pset": ("PersistentSet", "Cover_PersistentSet2.cfg", "Cover_PersistentSet.cfg", "Sim_PersistentSet.cfg", 1500, [""]),
     "bimap": ("BiMap", "Cover_BiMap.cfg", "Cover_BiMap.cfg", "Sim_BiMap.cfg", 3000, [""]),
     "itree": ("IntervalTree", "Cover_IntervalTree.cfg", "Cover_IntervalTree3.cfg", "Sim_IntervalTree.cfg", 1500, [""]),
 }
 C51_FILES = ["coll/OrderedMap.tla", "coll/MC_OrderedMap.tla", "coll/MC_Coll.tla", "coll/PersistentSet.tla", "coll/BiMap.tla",
              "coll/IntervalTree.tla", "coll/Cover_OrderedMap.cfg", "coll/Cover_OrderedMap4.cfg", "coll/Sim_OrderedMap.cfg",
-             "coll/Cover_PersistentSet.cfg", "coll/Sim_PersistentSet.cfg", "coll/Cover_BiMap.cfg", "coll/Sim_BiMap.cfg",
+             "coll/Cover_PersistentSet.cfg", "coll/Cover_PersistentSet2.cfg", "coll/Sim_PersistentSet.cfg", "coll/Cover_BiMap.cfg", "coll/Sim_BiMap.cfg",
              "coll/Cover_IntervalTree.cfg", "coll/Cover_IntervalTree3.cfg", "coll/Sim_IntervalTree.cfg"]
 
 
@@ -432,6 +434,7 @@ def check_C51(ctx):
         "distinct_nontrivial": len(triples),
         "rule": "distinct (abstract state, call) pairs of the four bounded models plus distinct (call, predicted result, predicted contents) labels of the simulated histories; result and full contents / iteration order compared after each",
         "exhaustive": True,
+        "exhaustive_scope": "the bounded models are enumerated completely and every one of their transitions is replayed; the simulated histories are samples",
         "per_structure": per,
     }, assumptions=["ordered map is exercised both as the zero value (as most of the code base uses it) and built with New",
                     "interval tree positions are integers; where the code may return any of several entries the model gives the allowed set"])
